@@ -715,7 +715,8 @@ class TypedTree(Tree):
 
     def iter_by_type(self, kind: str | ANY_KIND) -> Iterator[TypedNode]:
         if kind == ANY_KIND:
-            return self.iterator()
+            yield from self.iterator()
+            return
         for n in self.iterator():
             if n._kind == kind:
                 yield n
